@@ -200,6 +200,56 @@ func IndexWalk(files map[string][]byte, dir string, seed uint32, count int, clos
 	return st, nil
 }
 
+// IndexChains returns, for every bucket chain of the index, the keys held by each of its buckets (main bucket
+// first, then the overflow buckets in link order). Lenient: anything it cannot read ends the chain.
+func IndexChains(files map[string][]byte, dir string) [][][]string {
+	p := func(n string) string {
+		if dir == "." || dir == "" {
+			return n
+		}
+		return dir + "/" + n
+	}
+	main := files[p("main.pix")]
+	ovf := files[p("overflow.pix")]
+	if len(main) < 1024 {
+		return nil
+	}
+	segs, err := ListSegments(files, dirOrDot(dir))
+	if err != nil {
+		return nil
+	}
+	segByID := map[int][]byte{}
+	for _, sn := range segs {
+		segByID[sn.ID] = files[sn.Path]
+	}
+	var chains [][][]string
+	nb := (len(main) - 512) / 512
+	for bi := 0; bi < nb; bi++ {
+		off := int64(512 + 512*bi)
+		f := main
+		var chain [][]string
+		for hops := 0; hops < 1000 && off >= 512 && off+512 <= int64(len(f)); hops++ {
+			slots, next := readBucket(f[off : off+512])
+			var ks []string
+			for _, sl := range slots {
+				seg := segByID[int(sl.seg)]
+				end := int64(sl.off) + 6 + int64(sl.ksize)
+				if int64(sl.off) < 512 || end > int64(len(seg)) {
+					continue
+				}
+				ks = append(ks, string(seg[int64(sl.off)+6:end]))
+			}
+			chain = append(chain, ks)
+			if next == 0 {
+				break
+			}
+			f, off = ovf, next
+		}
+		chains = append(chains, chain)
+	}
+	return chains
+}
+
 func dirOrDot(d string) string {
 	if d == "" {
 		return "."
